@@ -86,3 +86,24 @@ finding("C02-bare-next-after-explicit-next", ["C02"],
         {"C02": [P([10, [LET(V("T"), N(0))]], [20, [["for", "I", N(1), N(2), None]]], [30, [["for", "J", N(1), N(2), None]]],
                    [40, [LET(V("T"), B("+", V("T"), N(1))), ["next", ["J"]]]], [50, [["next", []]]], [60, [PR(V("T"))]])]},
         status="fixed", commit="dcd1581")
+
+def SRC(text, **kw):
+    d = {"source": text, "options": {}}
+    d.update(kw)
+    return d
+
+finding("C07-basic09-reserved-words-as-variables", ["C07"],
+        "Color BASIC variables named DO, PI or SQ (or longer names truncated to them, e.g. PIN) are emitted unchanged although they are BASIC09 reserved words",
+        {"C07": [SRC("10 PI=3"), SRC("10 DO=1:PRINT DO"), SRC("10 PIN=2")]},
+        switch="no_b09_reserved_names")
+finding("C05-width-read-input-operands-not-visited", ["C05", "C07"],
+        "the operands of WIDTH and the subscripts of READ / INPUT targets are never visited: a function that must become a procedure call is lost there ('WIDTH INT(A)' gives 'run _ecb_width(, display)', 'READ A(INT(B))' gives 'READ arr_A')",
+        {"C07": [SRC("10 WIDTH INT(A)")],
+         "C05": [P([10, [LET(V("A"), N(40))]], [20, [["dev", "WIDTH", {"a": FN("INT", V("A"))}]]]),
+                 P([10, [LET(V("B"), N(2))]], [20, [["read", [["arr", "Q", [FN("INT", V("B"))]]]]]], [30, [["data", [["n", "5", 5]]]]], [40, [PR(["arr", "Q", [N(2)]])]])]},
+        switch="no_convertible_in_width_read_input")
+
+finding("C07-hcircle-default-colour-statement", ["C07"],
+        "HCIRCLE with an omitted colour and a convertible function in a later operand printed the hoisted call inside the argument list",
+        {"C07": [SRC("10 HCIRCLE(1,2),3,,INT(A)"), SRC("10 HCIRCLE(1,2),3,,BUTTON(0),INT(C),1")]},
+        status="fixed", commit="346ca10")
